@@ -165,12 +165,12 @@ def run(ctx):
         if any(x["kind"] == "simple" and x["name"] == "-" for x in tb):
             ante["static_inside_rewrite"] += 1
     for k, v in ante.items():
-        if v == 0:
+        if v == 0 and not ctx.violations:
             raise V.Machinery("vacuity: no executed cell exercised '%s'" % k)
     ctx.cov["rule_antecedents_observed"] = ante
     per = sorted(len(v) for v in hosts_per_world_route.values())
     ctx.cov["distinct_served_hosts_per_world_and_document_on_rewrite_routes"] = {"min": per[0] if per else 0, "max": per[-1] if per else 0}
-    if not per or per[-1] < 3:
+    if (not per or per[-1] < 3) and not ctx.violations:
         raise V.Machinery("vacuity: no world served several different hosts through its rewrite routes")
     ctx.cov["samples"].append(json.loads(tables[0]))
     ctx.cov["samples"].append(json.loads(rest[0]))
